@@ -1,4 +1,5 @@
 import Driver.Codec
+import Driver.Chain
 /-
   Line-protocol driver of the executable Lean models. `driver <suite>` reads one request per line on stdin
   and answers one line per request on stdout. One sub-driver per model family (Driver/<Suite>.lean).
@@ -6,4 +7,5 @@ import Driver.Codec
 def main (args : List String) : IO Unit :=
   match args with
   | ["codec"] => Drv.Codec.run
+  | ["chain"] => Drv.Chain.run
   | _ => do IO.eprintln "usage: driver <suite>"; IO.Process.exit 2
